@@ -1,5 +1,5 @@
 (* P_C07.v — property theorems for C07 only. *)
-From ZT Require Import Base Channel ChannelFacts.
+From ZT Require Import Base Channel ChannelFacts ChannelNoise.
 Open Scope N_scope.
 
 (* Nothing lost: whatever lines precede the report on the child's stderr (none of which reads as three integers) and
@@ -49,3 +49,21 @@ Theorem C07_cut_inside_last_name_refuted : exists ran fails errs n,
   exists fs, parse (firstn n (encode ran fails errs)) = Report (Z.of_N ran) fs errs /\ fs <> fails.
 Proof. exact cut_inside_last_name_refuted. Qed.
 Print Assumptions C07_cut_inside_last_name_refuted.
+
+(* Which stderr lines can be taken for the report header, exactly: those that, stripped and split at white space, consist of
+   three integer literals and nothing else.  A line that merely ends in three integers is never a header. *)
+Theorem C07_header_iff_three_integers : forall l, header l <> None <-> looks_like_header l = true.
+Proof. exact header_iff_three_integers. Qed.
+Print Assumptions C07_header_iff_three_integers.
+
+Theorem C07_other_field_counts_are_not_headers : forall l, length (split (strip l)) <> 3%nat -> header l = None.
+Proof. exact not_three_fields_not_header. Qed.
+Print Assumptions C07_other_field_counts_are_not_headers.
+
+(* nothing lost, with the condition on the noise as a boolean that can be evaluated on any child output *)
+Theorem C07_roundtrip_lines_decidable_noise : forall noise h ran fails errs trailing,
+  forallb (fun l => negb (looks_like_header l)) noise = true ->
+  header h = Some (ran, Z.of_nat (length fails), Z.of_nat (length errs)) ->
+  parse_lines (noise ++ h :: fails ++ errs ++ trailing) = Report ran (map strip fails) (map strip errs).
+Proof. exact roundtrip_lines_bool. Qed.
+Print Assumptions C07_roundtrip_lines_decidable_noise.
